@@ -270,8 +270,9 @@ def e1_names(obs):
             st = model.norm(it["self_ty"]).split("<")[0]
             for k, mn in model.MSG_NAME.items():
                 if st == mn or (st.endswith(mn) and k in ENUM_KINDS and not st.startswith("Contract")):
-                    fns = [(f["name"], len(f["params"])) for f in it["items"] if f.get("k") == "fn" and f["name"] != "dispatch"]
-                    out[k] = fns
+                    # a type may have several inherent impl blocks: constructors are collected over all of them, in order
+                    fns = [(f["name"], len(f["params"])) for f in it["items"] if f.get("k") == "fn" and f["name"] != "dispatch" and not f["name"].endswith("_messages")]
+                    out.setdefault(k, []).extend(fns)
     return out
 
 
